@@ -47,6 +47,7 @@ ENTRY_ALPHA: Dict[str, Dict[str, Any]] = {
     "t1A": {"time": T1, "args": [5], "labels": {"el": 1}},
     "t2D": {"time": T2, "args": ["@dataclass"], "kwargs": {"m": "@model"}},  # declared with a dataclass / pydantic model argument
     "t1T": {"time": T1, "args": (7, "x"), "kwargs": {"k": 3}},  # positional arguments declared as a tuple
+    "t1N": {"time": T1.replace(tzinfo=None)},  # naive time with the wall clock of the aware t1
 }
 
 
